@@ -41,14 +41,23 @@ structure Walk where
   sc : Script
   res : String
   log : List (Ev String)
+  /-- the second walk of a sequence `A>B` (same visitor object) -/
+  resB : String := ""
+  logB : List (Ev String) := []
 
 /-- `| W <script> <res> <log>` sections -/
 partial def walksOf : List Sexp → Option (List Walk)
   | .atom "|" :: .atom "W" :: .atom sc :: .atom res :: .atom log :: rest => do
     let s ← parseScript sc
-    let l ← parseLog log
     let ws ← walksOf rest
-    pure (⟨s, res, l⟩ :: ws)
+    match res.splitOn ">", log.splitOn ">" with
+    | [ra, rb], [la, lb] => do
+      let la ← parseLog la
+      let lb ← parseLog lb
+      pure ({ sc := s, res := ra, log := la, resB := rb, logB := lb } :: ws)
+    | _, _ => do
+      let l ← parseLog log
+      pure ({ sc := s, res := res, log := l } :: ws)
   | .atom "|" :: .atom "sexp=" :: _ => some []
   | .atom "|" :: .atom "tree=" :: _ => some []
   | [] => some []
@@ -85,9 +94,36 @@ def judgeWalkT (tst tse : Tree String) (w : Walk) : Option String :=
   match parseRes w.res with
   | none => none
   | some r =>
-    match judgeRunT (schedVisitor id w.sc.sel w.sc.act) (if w.sc.structural then tst else tse) w.log r with
-    | some msg => some s!"walk-{msg} {w.sc.text}"
-    | none => none
+    let vA := schedVisitor id w.sc.sel w.sc.act
+    let first :=
+      if w.sc.leaf then none    -- the bare leaf root: nesting is judged by `judgeWalk`
+      else match judgeRunT vA (if w.sc.structural then tst else tse) w.log r with
+        | some msg => some s!"walk-{msg} {w.sc.text}"
+        | none => none
+    match first, w.sc.next with
+    | some m, _ => some m
+    | none, none => none
+    | none, some b =>
+      -- walk B with the SAME visitor object: like a fresh visitor unless walk A was cancelled / failed
+      -- (`reused_visitor_walk`, `reused_done_visitor_walks_nothing`)
+      let tB := if b.structural then tst else tse
+      let cancelled := match replay vA [] w.log Mon.init with
+        | some m => m.stopped.isSome
+        | none => true
+      if cancelled then
+        if !w.logB.isEmpty then some s!"walk-reused-done-visitor-got-callbacks {w.sc.text}"
+        else if tB.good && w.resB != "ok" then some s!"walk-reused-done-visitor-result {w.sc.text}"
+        else none
+      else match parseRes w.resB with
+        | none => some s!"walk-{w.resB} {w.sc.text}"
+        | some rb =>
+          let vB := schedVisitor id b.sel b.act
+          match judgeRun vB w.logB rb with
+          | some msg => some s!"walk-reused-visitor-{msg} {w.sc.text}"
+          | none =>
+            match judgeRunT vB tB w.logB rb with
+            | some msg => some s!"walk-reused-visitor-{msg} {w.sc.text}"
+            | none => none
 
 def judgeWalk (w : Walk) : Option String :=
   match parseRes w.res with
